@@ -115,6 +115,7 @@ type Morass struct {
 	chunkSize int
 	pool      chan sorter
 	writable  chan sorter
+	writers   sync.WaitGroup
 
 	filesLock sync.Mutex
 	files     files
@@ -180,7 +181,11 @@ func (m *Morass) Push(e LessInterface) error {
 
 	if len(m.chunk) == m.chunkSize {
 		m.writable <- m.chunk
-		go m.write()
+		m.writers.Add(1)
+		go func() {
+			defer m.writers.Done()
+			m.write()
+		}()
 		m.chunk = <-m.pool
 		if err := m.err(); err != nil {
 			return err
@@ -274,6 +279,12 @@ func (m *Morass) Finalise() error {
 	}
 
 	if !m.fast {
+		// Every chunk writer started by Push must have registered and
+		// completed its run before the run files are read.
+		m.writers.Wait()
+		if err := m.err(); err != nil {
+			return err
+		}
 		for _, f := range m.files {
 			_, err := f.file.Seek(0, 0)
 			if err != nil {
